@@ -71,3 +71,36 @@ func VerifC14_signed_radix16() {
 	vAssert(carry == 0, "no-final-carry")
 	vReach("radix16")
 }
+
+// C17 (point arithmetic): the scalar multiplications used by signing, verification and blinding
+// are executed on concrete operands; every write to memory that existed before the call (package
+// level tables, the operands) outside a sync.Once body is reported, natively two goroutines run
+// the same calls under the race detector.
+func VerifC17_edwards25519_point_ops() {
+	vUnwind(400)
+	vSteps(400000000) // concrete execution of the real field and point arithmetic
+	var sb [32]byte
+	for i := range sb {
+		sb[i] = byte(3*i + 1)
+	}
+	sb[31] &= 15
+	s, err := NewScalar().SetCanonicalBytes(sb[:])
+	vAssume(err == nil)
+	base := NewGeneratorPoint()
+	// the precomputed tables are built once, before the object is shared (sync.Once in the package)
+	_ = new(Point).ScalarBaseMult(s)
+	_ = new(Point).VarTimeDoubleScalarBaseMult(s, base, s)
+	op := vSplit(vInt("op", 0, 2), 0, 2)
+	vConcurrently(func() {
+		switch op {
+		case 0:
+			_ = new(Point).ScalarMult(s, base)
+		case 1:
+			_ = new(Point).ScalarBaseMult(s)
+		case 2:
+			_ = new(Point).VarTimeDoubleScalarBaseMult(s, base, s)
+		}
+	})
+	vSharedEnd()
+	vReach("called")
+}
